@@ -21,7 +21,7 @@ from harness.adapters import tree as T
 from harness.props import _tree_common as G
 
 MANIFEST_ENTRY = {
-    "text": "Lean theorems over an executable model of the intake (retain_update, check_types, remove_type_placeholders, validate_names, parse_parameters): merge_frame (the merged tree holds the user's value on every user leaf path, the default's value on every other leaf path, and every dictionary keeps the default's key list), merge_comm (updates with disjoint leaf paths commute, so the result does not depend on file order), checkTypes_iff / rejects_unknown_key / rejects_wrong_type (acceptance is exactly: every key known and every value typed, at any depth, with the code's int-for-float and placeholder rules and its omit-key exemption), methods_installed, no_placeholder_left, reserved_names_rejected; C18_counterexample shows the full-strength statement false because omit keys are exempt at every depth (known finding). The model is tied on every run to the real functions and to InputManager.read_and_validate_parameters end to end on generated YAML files built from the repo's own default files (random subsets of overridable keys at every level, all file orders for <= 4 files, every single-key corruption), and the property's clauses are evaluated directly on the implementation's results.",
+    "text": "Lean theorems over an executable model of the intake (retain_update, check_types, remove_type_placeholders, validate_names, handle_parameter_versioning, parse_parameters): merge_frame (the merged tree holds the user's value on every user leaf path, the default's value on every other leaf path, and every dictionary keeps the default's key list), merge_comm / merge_comm_decidable (two updates that agree wherever both reach - real files share parameter_level / version - commute, so the result does not depend on file order; hypotheses evaluated on every generated pair), writes_swap / files_of_different_levels_swap (accepted virtual_world / outputs / programs / methods files writing different slots can be swapped: same state up to key order), checkTypes_iff with conforms_dict / conforms_list / typeOk_spec (acceptance is exactly: every non-omit key known and every value typed, at any depth, with the code's int-for-float and placeholder rules), accepts_known_typed / rejects_unknown_key / rejects_wrong_type (path-wise), intake_ok_inv with routed_file_checked, sim_settings_checked_and_merged, program_checked_and_merged, section_checked_and_merged, methods_installed (every routed file and every installed method passed check_types and was merged onto its own defaults), intake_frame, no_placeholder_left, reserved_names_rejected; C18_counterexample shows the full-strength statement false because omit keys are exempt at every depth and duplicate level files are last-wins (known findings). The model is tied on every run to the real functions and to InputManager.read_and_validate_parameters end to end on generated YAML / JSON files built from the repo's own default files (random subsets of overridable keys at every level, all file orders for <= 4 files, every single-key corruption, version-gate combinations, placeholder names; key order compared too), and the property's clauses are evaluated directly on the implementation's results.",
     "design_ref": "DESIGN.md 5.18, 4.4",
     "note": "trusted: Lean kernel + propext/Classical.choice/Quot.sound; the hand-written model (tied by sampled/exhaustive correspondence, not proof); harness adapters and the path-wise specification oracle; PyYAML load/dump; one file per single-instance level (virtual_world, outputs) and distinct program / method names are assumed for order independence (duplicates are a recorded finding); version strings restricted to plain 'M.N' forms",
     "technique": "Lean 4 structural-induction proofs over JSON-like trees + differential correspondence with the real intake functions + direct oracle",
@@ -242,11 +242,21 @@ def comp_merge(ctx, defs):
                 del node[p[-1]]
             except (KeyError, TypeError):
                 pass
+        # real files of one level both carry parameter_level (and often version), with equal values
+        for shared in ("parameter_level", "version"):
+            if shared in d and rng.random() < 0.7:
+                a[shared] = d[shared]
+                b[shared] = d[shared]
         comm.append((d, a, b, lvl))
     lines = ["merge " + T.to_line([d, u]) for (d, u, _) in jobs]
     for (d, a, b, _) in comm:
-        lines.append("merge " + T.to_line([d, a]))
+        lines.append("hyp " + T.to_line([d, a, b]))
     model = lean(lines)
+    hyp = model[len(jobs):]
+    ctx.extra.setdefault("hypothesis_hit_rate", {})[
+        "merge_comm_decidable hypotheses (wf, both accepted by checkTypes [], agreeB) on generated update pairs of one level"] = [
+        sum(1 for x in hyp if x == "1"), len(hyp)]
+    ctx.count("comm-pairs-sharing-a-leaf", sum(1 for (d, a, b, _) in comm if set(a) & set(b)))
     for (d, u, meta), ml in zip(jobs, model):
         r = T.real_merge(d, u)
         il = T.show(r)
@@ -578,6 +588,7 @@ class E2E:
         self.defs = defs
         self.scratch = T.Scratch()
         self.jobs = []   # (loaded trees in given order, real outcome, meta)
+        self.hyp_jobs = []  # [default, file a, file b] of two simulation-settings files of one scenario
 
     def run_real(self, files, meta):
         # now and then one of the files is a .json file (the other format read_parameter_file takes)
@@ -613,6 +624,11 @@ class E2E:
                                  ordered_model[:600], ordered_impl[:600])
             ctx.count("intake:" + ("ok" if r[0] == "ok" else il))
         ctx.traces += len(self.jobs)
+        if self.hyp_jobs:
+            hyp = lean(["hyp " + T.to_line(j) for j in self.hyp_jobs])
+            ctx.extra.setdefault("hypothesis_hit_rate", {})[
+                "merge_comm_decidable hypotheses on the pairs of simulation-settings files of end-to-end scenarios"] = [
+                sum(1 for x in hyp if x == "1"), len(hyp)]
         self.scratch.close()
 
 
@@ -674,6 +690,9 @@ def e2e(ctx, defs):
                 r = run.run_real(fs, {"class": "valid", "n": len(files)})
                 results.append((order, r))
             oracle_valid(ctx, defs, files, results)
+            sims = [f for (kk, _, f) in files if kk == "sim"]
+            if len(sims) == 2:
+                run.hyp_jobs.append([defs[T.DEF_FILES["simulation_settings"]], sims[0], sims[1]])
             kinds = sorted(k for (k, _, _) in files)
             ctx.nontrivial.add(("valid", tuple(kinds), any("default_parameters" in f for (_, _, f) in files)))
             if k < 2:
